@@ -80,7 +80,7 @@ func (s *Scenario) flagString() string {
 	return strings.Join(f, ",")
 }
 
-var defaultArgs = []string{"Schema", "Emb:EmbeddedMock", "Empty", "GSchema", "GOne", "GLower"}
+var defaultArgs = []string{"Schema", "Emb:EmbeddedMock", "Empty", "GSchema", "GOne", "GLower", "GClash"}
 
 var verifSeed int64
 
@@ -148,6 +148,10 @@ func scenarios(tier string) (out []*Scenario) {
 	// interfaces whose signatures mention no source-package type: with -skip-ensure nothing may import the source package
 	add(Scenario{Args: []string{"Plain", "Empty"}, PkgMode: "other", SkipEnsure: true})
 	add(Scenario{Args: []string{"Plain"}, PkgMode: "other", SkipEnsure: true, Stub: true, Resets: true, Fmt: "noop"})
+	// only method-less interfaces, generated elsewhere: the import block holds nothing but the source package (for the self-check line)
+	add(Scenario{Args: []string{"Empty"}, PkgMode: "other"})
+	add(Scenario{Args: []string{"Empty"}, PkgMode: "other", Fmt: "noop"})
+	add(Scenario{Args: []string{"Empty"}, PkgMode: "other", Fmt: "goimports"})
 	// alias-declared interface literals with same-named methods (shared full method names)
 	add(Scenario{Args: []string{"AliasA", "AliasB"}})
 	add(Scenario{Args: []string{"AliasB", "AliasA"}, Stub: true, SkipEnsure: true, Resets: true})
@@ -458,20 +462,41 @@ func (s2 *Stage2) CheckAll() {
 
 // crossFormatter: -fmt noop and -fmt goimports differ from the default output in layout only (C16).
 func (s2 *Stage2) crossFormatter() {
-	var def, noop, gi *Scenario
+	// scenarios that differ in the formatter only
+	type trio struct{ def, noop, gi *Scenario }
+	groups := map[string]*trio{}
+	var order []string
 	for _, sc := range s2.Scen {
-		if sc.Stub || sc.SkipEnsure || sc.Resets || sc.PkgMode != "" || strings.Join(sc.Args, "+") != strings.Join(defaultArgs, "+") {
+		if sc.Src == "rnd" || len(sc.OnlyProps) > 0 {
 			continue
+		}
+		k := fmt.Sprintf("%v|%v|%v|%s|%s|%s", sc.Stub, sc.SkipEnsure, sc.Resets, sc.PkgMode, sc.Src, strings.Join(sc.Args, "+"))
+		g := groups[k]
+		if g == nil {
+			g = &trio{}
+			groups[k] = g
+			order = append(order, k)
 		}
 		switch sc.Fmt {
 		case "":
-			def = sc
+			if g.def == nil {
+				g.def = sc
+			}
 		case "noop":
-			noop = sc
+			g.noop = sc
 		case "goimports":
-			gi = sc
+			g.gi = sc
 		}
 	}
+	for _, k := range order {
+		g := groups[k]
+		if g.def != nil && (g.noop != nil || g.gi != nil) {
+			s2.crossFormatterOne(g.def, g.noop, g.gi)
+		}
+	}
+}
+
+func (s2 *Stage2) crossFormatterOne(def, noop, gi *Scenario) {
 	if def == nil || def.ExitCode != 0 {
 		return
 	}
